@@ -477,7 +477,7 @@ func jobC13(c *rt.Ctx) {
 		}
 	}
 	// entropy answers (E2): per chunk the reader answers in {full, 1-byte reads, short then EOF, error at byte k}
-	answers := []entAnswer{{name: "full", failAt: -1}, {name: "1-byte-reads", failAt: -1, chunk1: true}, {name: "eof@0", failAt: 0, eof: true}, {name: "err@0", failAt: 0}, {name: "err@1", failAt: 1, chunk1: true}, {name: "err@15", failAt: 15, chunk1: true}, {name: "err@16", failAt: 16, chunk1: true}, {name: "err@63", failAt: 63, chunk1: true}, {name: "err+data@5-once", failAt: 5, transient: true}, {name: "err+data@40-once", failAt: 40, transient: true}}
+	answers := []entAnswer{{name: "full", failAt: -1}, {name: "1-byte-reads", failAt: -1, chunk1: true}, {name: "eof@0", failAt: 0, eof: true}, {name: "err@0", failAt: 0}, {name: "err@1", failAt: 1, chunk1: true}, {name: "err@15", failAt: 15, chunk1: true}, {name: "err@16", failAt: 16, chunk1: true}, {name: "err@63", failAt: 63, chunk1: true}, {name: "full-zero-bytes", failAt: -1, zero: true}, {name: "err+data@5-once", failAt: 5, transient: true}, {name: "err+data@40-once", failAt: 40, transient: true}}
 	sizesE := []int{3, 4, 64, 70, 130, 192}
 	for _, n := range sizesE {
 		nchunks := 0
@@ -500,6 +500,15 @@ func jobC13(c *rt.Ctx) {
 		rt.EnumDev(sizes, 2, func(level int, v []int) {
 			for badPos := -1; badPos < 1; badPos++ {
 				if !c.Take() {
+					continue
+				}
+				zeroStream := false
+				for _, x := range v {
+					zeroStream = zeroStream || answers[x].zero
+				}
+				if zeroStream && badPos >= 0 {
+					// zero randomisers let an invalid entry through (the statement allows that for
+					// degenerate streams): only all-valid batches are run on the all-zero stream
 					continue
 				}
 				entries := append([]triple{}, fillers(vPure, n)...)
@@ -571,6 +580,7 @@ type entAnswer struct {
 	// transient: the error is reported ONCE, together with the bytes up to failAt; later calls of the
 	// same request deliver data again (a caller that drops an error which came with data goes on)
 	transient bool
+	zero      bool // the bytes delivered are all zero (a legal stream)
 }
 
 func (r *scriptReader) Read(p []byte) (int, error) {
@@ -610,6 +620,9 @@ func (r *scriptReader) Read(p []byte) (int, error) {
 	}
 	for i := 0; i < n; i++ {
 		p[i] = byte(0x5a + r.given + i*7 + r.cur)
+		if a.zero {
+			p[i] = 0
+		}
 	}
 	r.given += n
 	if r.given >= r.want {
